@@ -47,6 +47,17 @@ class History(object):
             # quaternions that are unit only within evo's own check() tolerance (e.g. rounded to 5 decimals in a file)
             f = np.asarray((list(init["qscale"]) * real.n)[: real.n], dtype=float)
             real = trajgen.Real(real.P, real.Rs(), "pq", real.T, Q=real.Q * (1.0 + f)[:, None])
+        if init.get("smooth") and "traj" in init:
+            # a smoothly turning platform: consecutive orientations differ by a small step about one axis (random
+            # orientations are almost always far apart, which makes angle thresholds trivial)
+            ax = gen.unit_axis(real.P[0] + np.array([0.3, -0.2, 0.9]))
+            step = float(init["smooth"])
+            R0 = real.Rs()[0]
+            real = trajgen.Real(real.P, [R0 @ rm.rodrigues(ax * step * k) for k in range(real.n)], real.mode, real.T)
+        if init.get("qflip") and real.mode == "pq":
+            # q and -q are the same rotation: recorded data flips the sign freely between consecutive poses
+            sg = np.where(np.arange(real.n) % 2 == 1, -1.0, 1.0)
+            real = trajgen.Real(real.P, real.Rs(), "pq", real.T, Q=real.Q * sg[:, None])
         self.timed = bool(init["timed"])
         if self.timed and real.T is None:
             real.T = np.arange(real.n, dtype=float) * 0.5 + 100.0
@@ -308,6 +319,11 @@ class History(object):
             Pout = np.asarray(o.positions_xyz)
             if not amb and len(ref_ids) == o.num_poses and all(float(np.abs(P[j] - Pout[k]).max()) <= self._ptol() for k, j in enumerate(ref_ids)):
                 ids = ref_ids
+            elif not amb:
+                # no decision of the definition is near a threshold: the kept poses are determined, evo kept others
+                raise Mismatch("motion_filter in a history kept %d poses %s, the definition keeps %d poses (ids %s)" % (
+                    o.num_poses, "at other positions" if len(ref_ids) == o.num_poses else "", len(ref_ids), ref_ids[:12]),
+                    observed="mf_selection", after="mf")
             elif self._ambiguous_identity():
                 raise Skip("untimed selection with equal poses: kept ids not identifiable")
         if ids is None:
@@ -493,7 +509,7 @@ st_init = st.integers(1, 12).flatmap(lambda n: st.fixed_dictionaries({
     "traj": trajgen.st_traj(n, stamps=True, exp_lo=-2, exp_hi=4), "timed": st.booleans(), "share": st.sampled_from([False, False, True]),
     "qscale": st.one_of(st.none(), st.none(), st.lists(st.sampled_from([0.0, 4e-6, -4e-6, 9e-6, 2e-7]), min_size=1, max_size=4)),
     "pre": st.lists(st.sampled_from(trajgen.VIEWS), max_size=2, unique=True),
-    "tzero": st.one_of(st.none(), st.none(), st.integers(0, 11)), "epoch": st.sampled_from([False, False, True])}))
+    "tzero": st.one_of(st.none(), st.none(), st.integers(0, 11)), "epoch": st.sampled_from([False, False, True]), "qflip": st.booleans(), "smooth": st.sampled_from([None, None, 0.05, 0.3])}))
 st_init_bulk = st.fixed_dictionaries({"bulk": st.fixed_dictionaries({"n": st.just(200), "seed": st.integers(0, 2 ** 32), "mode": st.sampled_from(["pq", "se3"])}),
                                       "timed": st.booleans(), "pre": st.lists(st.sampled_from(trajgen.VIEWS), max_size=1)})
 
@@ -591,7 +607,7 @@ _T1 = {"rot": {"axis": [0.0, 0.0, 1.0], "theta": 0.7}, "t": [1.0, -0.5, 0.25], "
 _T2 = {"rot": {"q": [0.5, -0.5, 0.5, 0.5]}, "t": [0.0, 1.0, 0.0], "mag": 10.0}
 ALPHABET = [
     {"op": "tl", "T": _T1}, {"op": "tr", "T": _T2}, {"op": "trp", "T": _T1}, {"op": "trp", "T": dict(_T1, mag=0.0)}, {"op": "sim3r", "T": _T2, "s": 2.5}, {"op": "sim3", "T": _T2, "s": 2.5}, {"op": "sim3", "T": _T1, "s": 1.0002}, {"op": "scale", "s": 0.5},
-    {"op": "ids", "ids": [0, 2], "as_array": False}, {"op": "down", "n": 2}, {"op": "mf", "d": 1.0, "a": 0.5, "deg": False},
+    {"op": "ids", "ids": [0, 2], "as_array": False}, {"op": "down", "n": 2}, {"op": "mf", "d": 1.0, "a": 0.5, "deg": False}, {"op": "mf", "d": 1000.0, "a": 0.15, "deg": False},
     {"op": "crop", "i": 1, "j": 2, "lo_out": False, "hi_out": True, "lo_none": False, "hi_none": False},
     {"op": "align", "seed": 7, "mode": "similarity", "n": -1}, {"op": "align", "seed": 8, "mode": "scale_both", "n": -1}, {"op": "origin", "seed": 9}, {"op": "project", "plane": "xy"},
     {"op": "copy"}, {"op": "r_pos"}, {"op": "r_quat"}, {"op": "r_se3"}, {"op": "r_check"}, {"op": "r_len"}, {"op": "r_dist"}, {"op": "r_speed"},
@@ -606,10 +622,16 @@ def enum_cases(tier):
     depth = 3 if tier == "quick" else 4
     for mode in ("pq", "se3"):
         for timed in (True, False):
-            for pre in ([], ["poses_se3"] if mode == "pq" else ["positions_xyz"], ["share"]):
+            for pre in ([], ["poses_se3"] if mode == "pq" else ["positions_xyz"], ["share"], ["smooth_flip"]):
                 if pre == ["share"] and mode != "se3":
                     continue
-                init = {"traj": dict(_ENUM_TRAJ, mode=mode, pre=[]), "timed": timed, "pre": [] if pre == ["share"] else pre, "share": pre == ["share"]}
+                if pre == ["smooth_flip"] and mode != "pq":
+                    continue
+                init = {"traj": dict(_ENUM_TRAJ, mode=mode, pre=[]), "timed": timed, "pre": [] if pre in (["share"], ["smooth_flip"]) else pre,
+                        "share": pre == ["share"]}
+                if pre == ["smooth_flip"]:
+                    # slowly turning platform whose stored quaternions alternate in sign
+                    init.update(smooth=0.1, qflip=True)
                 for L in range(1, depth + 1):
                     for seq in itertools.product(range(len(ALPHABET)), repeat=L):
                         if L == depth and tier != "quick" and ALPHABET[seq[-1]]["op"] in ("copy",):
